@@ -151,7 +151,14 @@ class OrderIndicator(Indicator, list):
         for name, element in self.elements:
             if index >= len(args):
                 break
-            result[name] = args[index]
+            # Bind the positional value the same way as a keyword value, so
+            # that nested dicts are converted and checked against the
+            # signature of their type.
+            value = element.parse_kwargs({name: args[index]}, name, {name})
+            if value:
+                result.update(value)
+            else:
+                result[name] = args[index]
             index += 1
 
         return result, args, index
